@@ -268,7 +268,7 @@ def unit_json(unit, defines=()):
     drv = os.path.join(ROOT, 'fe', 'drivers', unit + '.cpp')
     if not os.path.exists(drv):
         raise Undecided('no driver TU %s' % drv)
-    out = os.path.join(SCRATCH, 'ast-%s%s.json' % (unit, ''.join('-' + d for d in defines)))
+    out = os.path.join(SCRATCH, 'ast-%s%s-%s.json' % (unit, ''.join('-' + d for d in defines), repo_hash()))
     if os.path.exists(out):
         return out
     cmd = ['clang++', '-std=c++17', '-I', os.path.join(REPO, 'include'), '-fsyntax-only', '-Xclang',
@@ -672,6 +672,146 @@ def run_blocks(sel, blocks, verbose=False, keep=False):
     return results
 
 
+# --------------------------------------------------------------------------
+#  deciding a property
+# --------------------------------------------------------------------------
+TRUSTED_BASE = [
+    'clang 14 front end: the typed AST is taken as the meaning of the C++ source',
+    'bs2c translator (by-value C rendering of the instantiated bodies; DESIGN.md 3.2 lists what it changes)',
+    'goto-cc / goto-instrument --dfcc / cbmc 6.11.0 and the SMT solver that answered (cvc5 1.0.x, z3 4.8.12)',
+    'STL shim rt/bs_rt_*.h: std::array/vector/optional/shared_ptr/min/max/lower_bound/unique/distance modelled from the C++ standard',
+]
+ASSUMPTIONS_COMMON = [
+    'scalar T is interpreted as the mathematical rationals (__CPROVER_rational); nothing is claimed about floating-point rounding',
+    'every std::vector holds at most 65536 elements (BS_CAP, the max_size stand-in); at most 4 distinct grid vectors are alive in one call (BS_NG)',
+    'reference parameters are passed by value: aliasing between arguments (self-assignment, a += a through references) is not modelled',
+    'allocation failure, noexcept termination, exception message strings and threads are not modelled',
+    'logical grid equality is the ghost relation BS_GEQ (an equivalence on heap ids that implies equal lengths and, where a harness says so, equal elements); this is a definitional extension, see rt/harness.h',
+    'template instantiations: only those named in fe/drivers/*.cpp (spline orders 0..3 unless stated otherwise)',
+]
+
+
+def load_known():
+    out = []
+    p = os.path.join(ROOT, 'known_findings.txt')
+    if os.path.exists(p):
+        for line in open(p):
+            line = line.strip()
+            m = re.match(r'finding:\s+property=(\S+)\s+match=(\S+)\s+(.*)$', line)
+            if m:
+                out.append((m.group(1), re.compile(m.group(2)), m.group(3)))
+    return out
+
+
+def clause_of(r, o):
+    try:
+        ln = int(o.get('line') or 0)
+    except ValueError:
+        ln = 0
+    lm = getattr(r, 'linemap', {})
+    return lm[ln][3] if ln in lm else (o.get('desc') or '')
+
+
+def check_property(pid, tier, blocks, verbose=True):
+    t0 = time.time()
+    sel = [b for b in blocks if pid in b.tags and (tier == 'thorough' or b.tier == 'quick')]
+    if not sel:
+        print('UNDECIDED: no contract block states %s' % pid)
+        return 2
+    res = run_blocks(sel, blocks, verbose=verbose, keep=True)
+    known = load_known()
+    undecided = [r for r in res if r.status == 'undecided']
+    violations, knowns = [], []
+    n_obl = n_dis = 0
+    samples, functions, solver_time, by_solver = [], {}, 0.0, {}
+    os.makedirs(os.path.join(ROOT, 'evidence', 'replay'), exist_ok=True)
+    for r in res:
+        functions.update(r.srcs)
+        solver_time += r.time
+        for o in r.obligations:
+            mine = pid in o['tags'] or 'support' in o['tags'] or (pid == 'C09' and 'C09' in o['tags'])
+            if not mine:
+                continue
+            n_obl += 1
+            if o['status'] == 'SUCCESS':
+                n_dis += 1
+                by_solver[o['solver']] = by_solver.get(o['solver'], 0) + 1
+                if pid in o['tags'] and len(samples) < 12 and ('postcondition' in (o['id'] or '') or 'assertion' in (o['id'] or '')):
+                    samples.append({'obligation': o['id'], 'block': r.block.name, 'clause': clause_of(r, o)[:300],
+                                    'status': 'discharged', 'solver': o['solver']})
+            else:
+                text = '%s|%s|%s' % (r.block.name, o['id'], clause_of(r, o))
+                k = [x for x in known if x[0] == pid and x[1].search(text)]
+                if k:
+                    knowns.append((r, o, k[0][2]))
+                else:
+                    violations.append((r, o))
+    rc = 0
+    for r, o, what in knowns:
+        print('KNOWN-FINDING: property=%s %s [%s]' % (pid, what, o['id']))
+    vio_files = []
+    for n, (r, o) in enumerate(violations):
+        rp = make_replay(pid, r, o, n, blocks)
+        vio_files.append(rp)
+    if undecided:
+        for r in undecided:
+            print('UNDECIDED: block %s: %s' % (r.block.name, r.reason[:500]))
+    for (r, o), (path, confirmed) in zip(violations, vio_files):
+        print('VIOLATION property=%s replay=%s%s' % (pid, path, '' if confirmed else ' no-failing-input-found'))
+    if violations:
+        rc = 1
+    elif undecided:
+        rc = 2
+    ev = {
+        'property_id': pid, 'tier': tier, 'seed': int(os.environ.get('VERIF_SEED', '0') or 0),
+        'level': 'proof',
+        'coverage': {
+            'obligations': n_obl, 'discharged': n_dis,
+            'checker_cmd': 'goto-cc --function h_<f>; goto-instrument --dfcc h_<f> --enforce-contract <f> [--replace-call-with-contract g..] --apply-loop-contracts; cbmc --cvc5|--z3 ' + ' '.join(CBMC_FLAGS),
+            'trusted_base': TRUSTED_BASE,
+            'samples': samples,
+            'functions_under_contract': functions,
+            'blocks': [{'block': r.block.name, 'kind': r.block.kind, 'mode': r.block.mode, 'status': r.status,
+                        'obligations': len(r.obligations), 'solver': r.solver, 'wall_s': round(r.time, 2),
+                        'canary': r.canary, 'replaced_callees': r.block.replace, 'c_hash': r.chash,
+                        'bounded': r.block.bounded} for r in res],
+            'discharged_by_backend': by_solver,
+            'solver_wall_s': round(solver_time, 1),
+            'undecided_blocks': [r.block.name for r in undecided],
+            'known_findings': [{'obligation': o['id'], 'what': what} for r, o, what in knowns],
+            'repo_include_hash': repo_hash(),
+            'explanation': 'every listed obligation is generated by goto-instrument/cbmc from C that bs2c extracts on this run from the instantiated bodies in %s; proof-level means all of them were discharged, for all inputs and all loop iterations, under the stated assumptions' % REPO,
+        },
+        'assumptions': ASSUMPTIONS_COMMON + sorted({a for r in res for a in getattr(r.block, 'assumes', [])}),
+        'wall_s': round(time.time() - t0, 1),
+        'violations': len(violations),
+    }
+    with open(os.path.join(ROOT, 'evidence', pid + '.json'), 'w') as f:
+        json.dump(ev, f, indent=1)
+    if verbose:
+        print('%s: %d blocks, %d/%d obligations discharged, %d violations, %d known, %d undecided, %.1fs' % (
+            pid, len(res), n_dis, n_obl, len(violations), len(knowns), len(undecided), time.time() - t0))
+    return rc
+
+
+def make_replay(pid, r, o, n, blocks):
+    """write the replay file of one failed obligation; returns (path, confirmed_on_real_code)"""
+    path = os.path.join(ROOT, 'evidence', 'replay', '%s-%d.json' % (pid, n))
+    rec = {'property': pid, 'block': r.block.name, 'obligation': o['id'], 'clause': clause_of(r, o),
+           'description': o['desc'], 'sources': r.srcs, 'mode': r.block.mode, 'solver': o['solver'],
+           'verifier_output': '%s: %s' % (o['id'], o['status']), 'inputs': None, 'confirmed': False}
+    confirmed = False
+    try:
+        import replay as rp
+        confirmed = rp.build_and_run(rec, r, o, blocks, sys.modules[__name__])
+    except Exception as e:      # the replay machinery must never turn a failure into a pass
+        rec['replay_error'] = '%s: %s' % (type(e).__name__, e)
+    rec['confirmed'] = bool(confirmed)
+    with open(path, 'w') as f:
+        json.dump(rec, f, indent=1)
+    return path, bool(confirmed)
+
+
 def main(argv):
     if not argv:
         print(__doc__)
@@ -695,6 +835,18 @@ def main(argv):
             print('UNDECIDED: %s' % e)
             return 2
         return 0
+    if cmd == 'check':
+        pid = argv[1]
+        tier = 'quick'
+        if '--tier' in argv:
+            tier = argv[argv.index('--tier') + 1]
+        tier = os.environ.get('VERIF_TIER', tier) if '--tier' not in argv else tier
+        try:
+            rc = check_property(pid, tier, blocks, verbose=True)
+        finally:
+            if not os.environ.get('BSV_SCRATCH'):
+                shutil.rmtree(SCRATCH, ignore_errors=True)
+        return rc
     if cmd == 'run':
         rx = re.compile(argv[1])
         sel = [b for b in blocks if rx.search(b.name)]
